@@ -18,6 +18,14 @@ class _MM(dict):
     """sample meta-model: subscript / `in` by rule name (the first class of that name, as the namespace lookup does), iteration over all classes"""
     def __init__(s, classes): dict.__init__(s); s.classes = list(classes); [dict.setdefault(s, c[".__name__"], c) for c in classes]
     def __iter__(s): return iter(list(s.classes))
+class _EqMatch(HS):
+    """sample StrMatch with arpeggio's equality: equal to anything whose text is its text (StrMatch('A') == the reference to rule A)"""
+    def __eq__(s, o): return s[".to_match"] == (o.get(".to_match") if isinstance(o, dict) and ".to_match" in o else str(o))
+    def __ne__(s, o): return not s.__eq__(o)
+    def __hash__(s): return hash(s[".to_match"])
+class _Ref(HS):
+    """sample RuleCrossRef: prints as the rule's name, like textX's"""
+    def __str__(s): return s[".rule_name"]
 def r_resolverefs(root):
     out = []; inst = 0
     # the entry point is second_textx_model (the second pass over the compiled grammar); the rule-kind and class-reference steps
@@ -26,13 +34,15 @@ def r_resolverefs(root):
     find(t, "TextXVisitor._resolve_rule_refs")
     if len(ps) != 2: raise AnalysisError("second_textx_model: parameters %s" % ps)
     fns = {k: v for k, v in helper_functions(root, L, "TextXVisitor.second_textx_model").items() if k.startswith("_") and not k.startswith("__") and k not in ("_determine_rule_types", "_resolve_cls_refs")}
-    def ref(name, suppress=False): return HS({".kind": "RuleCrossRef", ".rule_name": name, ".suppress": suppress, ".position": 7, ".cls": None})
+    def ref(name, suppress=False): return _Ref({".kind": "RuleCrossRef", ".rule_name": name, ".suppress": suppress, ".position": 7, ".cls": None})
+    def lit(txt): return _EqMatch(E("StrMatch", rule_name="", to_match=txt))
     def cls_(name, rule): c = HS({".kind": "cls", ".__name__": name, "._tx_fqn": name, "._tx_peg_rule": rule}); (rule.__setitem__("._tx_class", c) if rule.get(".kind") != "RuleCrossRef" else None); return c
     def world(extra=()):
         a_root = E("Sequence", match("a"), rule_name="A", root=True)
         arrow_root = E("Sequence", match("-"), match(">"), rule_name="Arrow", root=True, skipws=False)         # Arrow[noskipws]: '-' '>';
         r_a1, r_a2, r_b, r_arrow, r_c = ref("A"), ref("A"), ref("B"), ref("Arrow", suppress=True), ref("LineComment")
-        model_root = E("Sequence", r_a1, E("ZeroOrMore", E("Sequence", r_arrow, r_a2)), r_b, rule_name="Model", root=True)
+        kw_a = lit("A")                                     # a keyword spelled like the rule A, right in front of the reference to A:  Model: 'A' A ...
+        model_root = E("Sequence", kw_a, r_a1, E("ZeroOrMore", E("Sequence", r_arrow, r_a2)), r_b, rule_name="Model", root=True)
         line_comment = E("RegExMatch", rule_name="LineComment", root=True, to_match="//.*$")
         dup1 = ref("A"); dup2 = ref("Arrow")
         classes = [cls_("Model", model_root), cls_("A", a_root), cls_("B", ref("A")), cls_("Arrow", arrow_root), cls_("Comment", r_c), cls_("LineComment", line_comment),
@@ -41,7 +51,7 @@ def r_resolverefs(root):
         start = E("Sequence", ref("Model"), E("EndOfFile", rule_name="EOF"), rule_name="Model", root=True)
         mp = HS({".kind": "parser", ".parser_model": start, ".metamodel": mm, ".comments_model": None})
         mm[".file_name"] = "g.tx"
-        return mp, mm, dict(a_root=a_root, arrow_root=arrow_root, model_root=model_root, line_comment=line_comment, start=start, classes=classes)
+        return mp, mm, dict(kw_a=kw_a, a_root=a_root, arrow_root=arrow_root, model_root=model_root, line_comment=line_comment, start=start, classes=classes)
     def run(mp):
         gp = HS({".kind": "grammar parser", ".debug": False, ".dprint": pyeval.PyFn(lambda *a: None), ".pos_to_linecol": pyeval.PyFn(lambda p_: (1, p_))})
         vis = HS({".kind": "visitor", ".debug": False, ".grammar_parser": gp, ".metamodel": mp[".metamodel"], ".dprint": pyeval.PyFn(lambda *a: None),
@@ -72,11 +82,11 @@ def r_resolverefs(root):
         below = walk(mp[".parser_model"]); left = [e.get(".rule_name") for e in below if e.get(".kind") == "RuleCrossRef"]
         unresolved = [c.get("._tx_fqn") for c in o["classes"] if not isinstance(c.get("._tx_peg_rule"), dict) or c["._tx_peg_rule"].get(".kind") == "RuleCrossRef" or [e for e in walk(c["._tx_peg_rule"]) if e.get(".kind") == "RuleCrossRef"]]
         rep("no placeholder is left below the start expression or below any class's rule", not left and not unresolved, "after _resolve_rule_refs references to %s are still placeholders below the parser's start expression and the rules of the classes %s are unresolved; documented: every RuleCrossRef is replaced - for every class of the meta-model (two classes may share a simple name when they come from different grammars)" % (left or "no rule", unresolved or "none"), props_=("C25", "C01", "C23"))
-        mr = o["model_root"]; n0 = mr[".nodes"][0]; n2 = mr[".nodes"][2]
-        inner = mr[".nodes"][1].get(".nodes", [None])[0] if isinstance(mr[".nodes"][1], dict) else None
+        mr = o["model_root"]; nkw = mr[".nodes"][0]; n0 = mr[".nodes"][1]; n2 = mr[".nodes"][3]
+        inner = mr[".nodes"][2].get(".nodes", [None])[0] if isinstance(mr[".nodes"][2], dict) else None
         arrow_w = inner.get(".nodes", [None, None])[0] if isinstance(inner, dict) else None; a_again = inner.get(".nodes", [None, None])[1] if isinstance(inner, dict) and len(inner.get(".nodes", [])) > 1 else None
-        rep("a reference is replaced by the rule's own root expression, the same object everywhere", n0 is o["a_root"] and a_again is o["a_root"] and n2 is o["a_root"] and mm["B"]["._tx_peg_rule"] is o["a_root"] and mp[".parser_model"][".nodes"][0] is mr,
-            "after resolution the references to A in Model are %s, the alias rule B has %s; documented: A's root expression itself for every reference and for the alias B" % ("A's root expression" if n0 is o["a_root"] and a_again is o["a_root"] else "not (all) A's root expression", "A's root expression" if mm["B"]["._tx_peg_rule"] is o["a_root"] and n2 is o["a_root"] else "something else"))
+        rep("a reference is replaced by the rule's own root expression, the same object everywhere", nkw is o["kw_a"] and n0 is o["a_root"] and a_again is o["a_root"] and n2 is o["a_root"] and mm["B"]["._tx_peg_rule"] is o["a_root"] and mp[".parser_model"][".nodes"][0] is mr,
+            "after resolution (Model: 'A' A (Arrow- A)* B;) the keyword 'A' in front is %s, the references to A in Model are %s, the alias rule B has %s; documented: the keyword stays where it is (a string match compares equal to anything that prints as its text - the reference to rule A does), A's root expression itself for every reference and for the alias B" % ("still the keyword" if nkw is o["kw_a"] else "replaced", "A's root expression" if n0 is o["a_root"] and a_again is o["a_root"] else "not (all) A's root expression", "A's root expression" if mm["B"]["._tx_peg_rule"] is o["a_root"] and n2 is o["a_root"] else "something else"), props_=("C25", "C01", "C21"))
         okw = isinstance(arrow_w, dict) and arrow_w.get(".kind") == "Sequence" and arrow_w.get(".suppress") is True and arrow_w.get(".rule_name") == "Arrow" and len(arrow_w.get(".nodes", [])) == 1 and arrow_w[".nodes"][0] is o["arrow_root"] and arrow_w.get("._tx_class") is mm["Arrow"] \
               and not o["arrow_root"].get(".suppress") and o["arrow_root"].get(".skipws") is False and [x.get(".to_match") for x in o["arrow_root"][".nodes"]] == ["-", ">"]
         rep("a suppressed reference wraps the rule's own root expression", okw, "the suppressed reference Arrow- (Arrow[noskipws]: '-' '>') becomes %s; documented: a suppressed Sequence named Arrow, carrying Arrow's class, whose only node is Arrow's own root expression - with its noskipws modifier - while the rule itself stays unsuppressed for its other users" % (("%s%s named %r over %s" % (arrow_w.get(".kind"), " (suppressed)" if arrow_w.get(".suppress") else "", arrow_w.get(".rule_name"), ["Arrow's root expression" if x is o["arrow_root"] else (x.get(".kind"), x.get(".to_match")) for x in arrow_w.get(".nodes", [])])) if isinstance(arrow_w, dict) else repr(arrow_w)), props_=("C25", "C01", "C22", "C06"))
